@@ -2,6 +2,7 @@ import Gp.Lemmas.AsmSeq
 import Gp.Lemmas.AsmPool
 import Gp.Lemmas.AsmWrap
 import Gp.Lemmas.AsmGap
+import Gp.Lemmas.AsmFinal
 /-
   C10 — tcpassembly: TCP bytes delivered in order, exactly once, gaps announced.
 
@@ -153,5 +154,71 @@ theorem asm_skip_exact (S : Bytes) (pos : Option Nat) (r : Reasm) (pos' : Option
     refine ⟨fun hs => ?_, fun q hq => ?_⟩
     · rw [h2] at hs; omega
     · cases hq; exact ⟨k, h2, h4, h5⟩
+
+/-- the skip announced for a gap counts only bytes that never arrived — statement for whole histories
+    with the real arithmetic, per emitted item (NOT proved in this form; see `asm_gap_missing_partial`):
+    whenever an item with skip `k > 0` is delivered at replay position `p`, no segment handed to the
+    stream before that item covers an offset in `[p, p+k)`. -/
+def asm_gap_missing_full : Prop :=
+  ∀ (snd : Nat → Sender), SendersOk snd → ∀ (ops : List Op), (∀ op ∈ ops, OpOk snd op) →
+    ∀ key sid (h1 h2 : List HEv) (i1 i2 : List Reasm) (r : Reasm) (p : Nat),
+      histOf key sid (runTrace wrapArith {} ops) = h1 ++ HEv.got (i1 ++ r :: i2) :: h2 →
+      0 < r.skip → replay (snd key).S none (gotItems h1 ++ i1) (some p) →
+      ∀ x, p ≤ x → (x : Int) < p + r.skip → ¬ fedOffsW (snd key).isn h1 x
+
+/-- **asm_gap_missing (partial).**  Proved: in every reachable state of the offset-space twin (which
+    by layer A produces exactly the callbacks of the real-arithmetic model), for every live connection
+    the gap between nextSeq and its first queued page contains no byte that was ever handed to that
+    connection — so the skip a flush would announce at that moment (`first.seq − nextSeq`, see
+    `popPage`) counts missing bytes only.  Missing for `asm_gap_missing_full`: threading this fact
+    through the item-by-item decomposition of histories (incl. the second and later releases of one
+    limit loop) and transporting `fedOffs` across layer A. -/
+theorem asm_gap_missing_partial (Sf : Nat → Bytes) (ops : List Op)
+    (hops : ∀ op ∈ ops, OpPre (fun s => FlatSegOk (Sf s.key) s) op) :
+    ∃ x, run flatArith {} ops = .ok x ∧
+      ∀ key c, lookup key x.1.conns = some c → ∀ q ys, c.pages = q :: ys →
+        ∀ y : Nat, c.nextSeq ≤ (y : Int) + 1 → (y : Int) + 1 < q.seq →
+          ¬ fedOffs (histOf key c.sid (runTrace flatArith {} ops)) y :=
+  flat_gap_missing Sf ops hops
+
+/-! ## 5. Completeness
+
+  `runTrace` records, besides the callbacks, to which stream each segment was handed
+  (`HEv.fed`); `histOf key sid` is the history of one stream, `gotItems` its delivered items,
+  `synFed h` / `fedOffsW isn h x`: a SYN / a segment covering stream offset `x` was handed to it. -/
+
+/-- **asm_complete.**  For every consistent history and every stream it created:
+    (a) the items in the stream's history are the items the stream's callbacks received;
+    (b) once its SYN and every byte of the sender's stream were handed to the stream's connection —
+        in any order, with any duplication, whatever flushes and limits intervened — everything is
+        accounted for: the replay position is the end of the stream (nothing is still waiting, no
+        arrived byte was left behind);
+    (c) and if no skip was emitted (no flush or limit forced data out), the concatenation of the
+        delivered bytes IS the sender's stream. -/
+theorem asm_complete (snd : Nat → Sender) (hsnd : SendersOk snd) (ops : List Op)
+    (hops : ∀ op ∈ ops, OpOk snd op) :
+    ∃ P outs, run wrapArith {} ops = .ok (P, outs) ∧
+      ∀ key sid,
+        gotItems (histOf key sid (runTrace wrapArith {} ops)) = itemsOf key sid (allEvs outs) ∧
+        (synFed (histOf key sid (runTrace wrapArith {} ops)) →
+          (∀ x, x < (snd key).S.length → fedOffsW (snd key).isn (histOf key sid (runTrace wrapArith {} ops)) x) →
+          replay (snd key).S none (itemsOf key sid (allEvs outs)) (some (snd key).S.length) ∧
+          ((∀ r ∈ itemsOf key sid (allEvs outs), r.skip = 0) →
+            ((itemsOf key sid (allEvs outs)).map (·.bytes)).flatten = (snd key).S)) := by
+  obtain ⟨P, outs, h1, h2⟩ := wrap_complete snd hsnd ops hops
+  refine ⟨P, outs, h1, fun key sid => ?_⟩
+  have hit := runTrace_items wrapArith {} ops (P, outs) key sid h1
+  refine ⟨hit, fun hsyn hall => ?_⟩
+  obtain ⟨pos, r1, r2⟩ := h2 key sid
+  have hp := r2 hsyn hall
+  rw [hp, hit] at r1
+  exact ⟨r1, fun hs => replay_all _ _ r1 hs⟩
+
+/-- non-vacuity of `asm_complete`: on the wrap-straddling history of §3 the stream 0.0 was fed its SYN
+    and all three bytes, and the model's callbacks concatenate to the stream. -/
+example : ∃ P outs, run wrapArith {} [.seg ⟨0, 4294967294, true, false, false, 0, []⟩,
+     .seg ⟨0, 0, false, false, false, 1, [2, 3]⟩,
+     .seg ⟨0, 4294967295, false, false, false, 2, [1, 2]⟩] = .ok (P, outs) ∧
+     ((itemsOf 0 0 (allEvs outs)).map (·.bytes)).flatten = [1, 2, 3] := ⟨_, _, rfl, by decide⟩
 
 end Gp.C10
